@@ -167,7 +167,7 @@ class Run:
                     self.cond_results.append(r)
                     self.log("  [E1] %-58s %-9s %5ss paths=%s %s" % (it.name, r.get("verdict"), r.get("secs", "?"),
                                                                    r.get("stats", {}).get("num_paths", "?"),
-                                                                   (r.get("cex_message") or r.get("detail") or "")[:150]))
+                                                                   ((r.get("cex_message") or r.get("detail") or "") + (" why=%s" % r.get("rt", {}).get("why") if r.get("verdict") == "cex" and r.get("rt", {}).get("why") else ""))[:260]))
                 else:
                     r["_obl"] = it
                     self.obl_results.append(r)
